@@ -87,3 +87,18 @@ def system_subcheck(name, prof, monitor_factory, nontrivial, classes=None, n=Non
         return out
 
     return SubCheck(name, execute, strategy=strategy if strategy is not None else S.netspec(prof), n=n, kind="system", rule=rule)
+
+
+def fuzz_subcheck(base, tier):
+    """Coverage-guided tier (atheris): thorough = campaign, quick = replay of the committed corpus.  Findings are NetSpecs and are
+    re-executed / reduced through `base` (the property's own lattice sub-check)."""
+    from .fuzz import campaign as C
+    sc = SubCheck("fuzz", base.execute, strategy=None, n={"quick": 0, "thorough": 0}, kind="coverage-guided fuzzing",
+                  rule=("atheris/libFuzzer over Hypothesis fuzz_one_input(NetSpec strategy) with the C01/C02/C14 monitors inside the target; "
+                        "quick: replay of the committed corpus; thorough: 8 forks x 100 s from the seed corpus and from an empty corpus; "
+                        "non-trivial = inputs libFuzzer kept for new coverage"))
+    if tier == "thorough":
+        sc.custom = lambda pid, tier, seed, deadline: C.campaign(pid, tier, seed, deadline)
+    else:
+        sc.custom = lambda pid, tier, seed, deadline: C.replay_corpus(pid, tier, seed, deadline)
+    return sc
